@@ -138,4 +138,4 @@ def cases(tier):
 
 ASSUMPTIONS = ["run-length and comma obligations are two-symbol obligations from an arbitrary running-disparity state; a run of 6 or a 7-bit comma window touches at most two consecutive 10-bit code words, so this covers every sequence (paper argument)",
                "control symbols restricted to the 12 defined ones",
-               "StreamEncoder/StreamDecoder wrappers: stalls covered by the clock-enable frame obligations (ens.stall.*); the PipelinedActor valid tracking is under the C03/C04 schema only in the thorough tier"]
+               "StreamEncoder/StreamDecoder wrappers: stalls covered by the clock-enable frame obligations (ens.stall.*); the valid/ready pipeline of the wrappers is under the ghost-queue schema in C17_stream_wrappers.py"]
